@@ -11,12 +11,15 @@ import (
 	"io/ioutil"
 	"net/http"
 	"net/url"
+	"strconv"
 	"strings"
 	"time"
 
+	"github.com/gorilla/mux"
 	"google.golang.org/grpc"
 
 	"github.com/chrislusf/seaweedfs/weed/pb/filer_pb"
+	"github.com/chrislusf/seaweedfs/weed/s3api"
 
 	"verifharness/cluster"
 	"verifharness/s3util"
@@ -84,27 +87,61 @@ func provision(full bool) {
 	dirty, dirtyAll = false, false
 }
 
+// Browser-form (POST policy) uploads only work on a gateway that has identities (the handler always
+// verifies the policy signature), so those requests go to a second gateway over the same filer with one
+// Admin identity and carry a validly signed form. Everything else uses the unauthenticated gateway.
+var formGateway string
+
+const formAK, formSK = "AKFORM", "SKFORM0123456789abcdef"
+
+func formAddr() string {
+	if formGateway != "" {
+		return formGateway
+	}
+	cfg := c.Base + "/form-identities.json"
+	must(ioutil.WriteFile(cfg, []byte(`{"identities":[{"name":"form","credentials":[{"accessKey":"`+formAK+`","secretKey":"`+formSK+`"}],"actions":["Admin"]}]}`), 0644), "config")
+	sp := cluster.FreePort()
+	router := mux.NewRouter().SkipClean(true)
+	_, err := s3api.NewS3ApiServer(router, &s3api.S3ApiServerOption{Filer: c.FilerAddr, Port: sp,
+		FilerGrpcAddress: c.FilerGrpc, BucketsPath: "/buckets", GrpcDialOption: grpc.WithInsecure(), Config: cfg})
+	must(err, "form gateway")
+	cluster.ServeHttp(sp, router)
+	formGateway = "127.0.0.1:" + strconv.Itoa(sp)
+	for i := 0; i < 100; i++ {
+		if resp, err := http.Get("http://" + formGateway + "/"); err == nil {
+			resp.Body.Close()
+			break
+		}
+		time.Sleep(20 * time.Millisecond)
+	}
+	return formGateway
+}
+
 func join(v interface{}) string { return strings.Join(tr.Strs(v), "/") }
 
 func doReq(e tr.Ev) {
 	route := tr.S(e, "route")
-	p := s3util.P{Bucket: bucket, Key: join(e["ktok"]), Uid: join(e["utok"]), Src: join(e["stok"]), Body: []byte("DATA")}
+	p := s3util.P{Bucket: bucket, Key: join(e["ktok"]), Uid: join(e["utok"]), Src: join(e["stok"]), Body: []byte("DATA"),
+		Prefix: join(e["ptok"]), Delim: tr.S(e, "delim")}
 	for _, d := range tr.List(e["dtok"]) {
 		p.DKeys = append(p.DKeys, join(d))
 	}
 	r, err := s3util.Build(route, p)
 	must(err, "build")
+	addr := c.S3Addr
 	if route == "PostPolicy" {
 		// a form value is not URL-decoded by the gateway: give it the text the tokens stand for
 		k, uerr := url.PathUnescape(p.Key)
 		if uerr != nil {
 			k = p.Key
 		}
-		body, ct := s3util.PostForm(bucket, k, []byte("FORMDATA"), false, "", "", time.Now(), time.Now(), false)
+		now := time.Now().UTC()
+		body, ct := s3util.PostForm(bucket, k, []byte("FORMDATA"), true, formAK, formSK, now, now.Add(time.Hour), false)
 		r.Body = body
 		r.Header.Set("Content-Type", ct)
+		addr = formAddr()
 	}
-	req, err := r.HTTP(c.S3Addr)
+	req, err := r.HTTP(addr)
 	e["key"] = p.Key
 	if err != nil {
 		// not expressible as an HTTP request
